@@ -147,3 +147,39 @@ impl Namer for RandomNamer<'_> {
         canonical.to_string()
     }
 }
+
+/// Renders `ledger` with the alias declarations placed after the first `cut` transactions:
+/// everything before them is written with canonical names only (which makes those names
+/// canonical *by use*), everything after them through `namer`.
+pub fn render_late_declarations(ledger: &Ledger, plan: &AliasPlan, cut: usize, namer: &mut dyn Namer) -> String {
+    use crate::gen::ledger::{entry_text_named, Identity};
+    let mut out = String::new();
+    let mut seen_txns = 0usize;
+    let mut declared = false;
+    let mut declare = |out: &mut String| {
+        for (a, al) in &plan.accounts {
+            out.push_str(&entry_text_named(&Entry::Account { name: a.clone(), aliases: al.clone() }, &mut Identity).0);
+            out.push('\n');
+        }
+        for (c, al) in &plan.commodities {
+            out.push_str(&entry_text_named(&Entry::Commodity { name: c.clone(), precision: None, aliases: al.clone() }, &mut Identity).0);
+            out.push('\n');
+        }
+    };
+    for e in &ledger.entries {
+        if let Entry::Txn(_) = e {
+            if seen_txns == cut && !declared {
+                declare(&mut out);
+                declared = true;
+            }
+            seen_txns += 1;
+        }
+        let text = if declared { entry_text_named(e, namer).0 } else { entry_text_named(e, &mut Identity).0 };
+        out.push_str(&text);
+        out.push('\n');
+    }
+    if !declared {
+        declare(&mut out);
+    }
+    out
+}
